@@ -618,7 +618,35 @@ def run(ctx):
     ctx.assumptions += ["LC_* variables skipped (setlocale side effects)", "variables with an accept-anything validator have no defined value domain and are skipped in part A"]
 
 
+class _ReplayCtx:
+    """Collects what a part reports when it is re-run for a replay."""
+
+    thorough = False
+    seed = 0
+    jobs = 1
+
+    def __init__(self):
+        self.found = []
+
+    def pick(self, a, b):
+        return a
+
+    def log(self, *a):
+        pass
+
+    def violation(self, **kw):
+        self.found.append(kw)
+
+
 def replay(rec):
+    if rec["case"].get("part") in ("D", "E"):
+        # these parts are small enumerations: re-run the part and look for the recorded key
+        rc = _ReplayCtx()
+        (_part_d if rec["case"]["part"] == "D" else _part_e)(rc)
+        hit = [v for v in rc.found if v["key"] == rec["key"]]
+        for v in hit[:3]:
+            print("VIOLATION", v["key"], "case=", v["case"], "observed=", v["observed"], "expected=", v["expected"])
+        return 1 if hit else 0
     if "history" not in rec["case"]:
         print("part A case:", rec["case"], "observed", rec["observed"], "expected", rec["expected"])
         return 1
